@@ -4,6 +4,7 @@ CONSTANTS
   Ports = {53}
   TrimCut = 1
   DialPortRule = "url"
+  PortCheck = TRUE
   Export = FALSE
 CONSTRAINT HWM
 POSTCONDITION Accepted
